@@ -115,8 +115,9 @@ def oneshot_poll():
     def op(state, args=None):
         full = state['st'] == 1
         ns = dict(state)
-        ns['st'] = z3.If(full, bv(2, 2), state['st'])
-        closed = z3.And(z3.Not(full), state['txdrop'])
+        closed = z3.And(z3.Not(full), state['txdrop'], state['st'] == 0)
+        # 2 = value taken, 3 = completed with the closed error: either way the receiver is terminated
+        ns['st'] = z3.If(full, bv(2, 2), z3.If(closed, bv(3, 2), state['st']))
         return z3.BoolVal(True), ns, {'ready_val': full, 'ready_closed': closed, 'val': state['val']}
     return op
 
